@@ -230,7 +230,9 @@ def gen_history(rng, n, etags):
             if card and objs and rng.random() < 0.25:
                 objs.append((objs[0][0], "CCard", (objs[0][2] + 1) % 3))      # duplicate UID in a whole address book
             b = ("BCards", objs) if card else ("BCal", objs)
-            if not objs and (card or rng.random() < 0.5):
+            if not objs:
+                # a VCALENDAR without components is outside the abstract grammar (as an item it is accepted with an
+                # empty UID): never generated
                 b = ("BEmpty",)
             ct = rng.choice(["CTNone", "CTCal", "CTCard"])
             if b[0] == "BEmpty" and ct == "CTCal":
